@@ -222,7 +222,7 @@ def rule_rearm(ctx, u):
             if not edges:
                 ctx.fail("C01.REARM", u.where, "no Ready(Some) edge found for %s" % c.label, site=c.where)
                 continue
-            arms = [s for s in scan.arm_sites(bi) if common.same_index(u, c, s.arg(1))]
+            arms = [s for s in scan.arm_sites(bi) if common.same_index(u, c, s.arg(1), s.block)]
             ok, bad = bi.must_reach([b for _, b in edges], [s.block for s in arms], bi.return_blocks + ([c.loop[0]] if c.loop else []))
             ctx.check(ok and bool(arms), "C01.REARM", u.where, "%s re-armed after yielding an item" % c.label, site=c.where,
                       path=common.fmt_blocks(bi, bad), sample={"arm_sites": [s.where for s in arms]})
